@@ -377,6 +377,8 @@ theorem vrun_length_le (c : Nat) (hc : 1 ≤ c) (x : Big) (ops : List VOp) (hx :
 
 -- ================================================================ (d) AllLt preserved
 
+instance (xs : Big) : Decidable (AllLt xs) := by unfold AllLt; infer_instance
+
 theorem allLt_nil : AllLt [] := by simp [AllLt]
 
 theorem allLt_cons {a : Nat} {xs : List Nat} : AllLt (a :: xs) ↔ a < B ∧ AllLt xs := by
